@@ -12,6 +12,7 @@ import (
 	"io"
 	"net/http"
 	"net/http/httptest"
+	"regexp"
 	"runtime"
 	"strings"
 	"sync"
@@ -683,6 +684,80 @@ func C12(run *core.Run) {
 					run.NonTrivial([]byte(ct + entry + body))
 				}
 			}
+		}
+	}
+	// 4d. the request path is what the handler chain made of it: a path rewritten before the wrapper is built
+	// (clean URLs) and requests built with http.NewRequest (no RequestURI) choose by URL.Path
+	for _, in := range shorts {
+		ext := map[string]string{"text/html": ".html", "text/css": ".css", "application/javascript": ".js", "application/json": ".json", "image/svg+xml": ".svg", "text/xml": ".xml"}[in.mt]
+		if ext == "" || len(in.data) == 0 {
+			continue
+		}
+		for variant := 0; variant < 3; variant++ {
+			run.Eval()
+			var req *http.Request
+			switch variant {
+			case 0:
+				req = httptest.NewRequest("GET", "http://example.com/about", nil)
+				req.URL.Path = "/about" + ext // rewritten by an outer handler
+			case 1:
+				req, _ = http.NewRequest("GET", "http://example.com/page"+ext+"?v=2", nil) // client-style request: RequestURI is empty
+			default:
+				req = httptest.NewRequest("GET", "http://example.com/x"+ext, nil)
+				req.URL.Path = "/x.bin" // rewritten to something that is not minified
+			}
+			rw := &headerSnapshotRW{hdr: http.Header{}}
+			mw := m.ResponseWriter(rw, req)
+			mw.Write(in.data)
+			cerr := mw.Close()
+			want := in.data
+			if variant != 2 {
+				if ref, err, _ := minifyBytes(m, in.mt, in.data); err == nil {
+					want = ref
+				} else {
+					continue
+				}
+			}
+			cfg := fmt.Sprintf("ResponseWriter path-variant=%d url.path=%q requesturi=%q input=%s", variant, req.URL.Path, req.RequestURI, in.name)
+			if cerr != nil || !bytes.Equal(rw.buf.Bytes(), want) {
+				run.Violation(core.Key(cfg, in.data), fmt.Sprintf("%s: body %q (close: %v), the type of URL.Path gives %q", cfg, core.Trunc(rw.buf.String(), 80), cerr, core.Trunc(string(want), 80)), map[string]interface{}{"case": cfg, "input": string(in.data)})
+			} else {
+				run.NonTrivial([]byte(cfg))
+			}
+		}
+	}
+	// 4e. a registry that is used, extended and used again: every entry point sees the new registration
+	for _, in := range shorts {
+		if in.mt != "image/svg+xml" && in.mt != "application/json" || len(in.data) == 0 {
+			continue
+		}
+		run.Eval()
+		mm := minify.New()
+		mark := func(tag string) minify.MinifierFunc {
+			return func(_ *minify.M, w io.Writer, r io.Reader, _ map[string]string) error {
+				b, _ := io.ReadAll(r)
+				w.Write([]byte(tag + ":"))
+				w.Write(b)
+				return nil
+			}
+		}
+		mm.AddFuncRegexp(regexp.MustCompile("[/+](xml|json)$"), mark("pattern"))
+		first, _ := mm.Bytes(in.mt, in.data)
+		mm.AddFunc(in.mt, mark("literal"))
+		second, _ := mm.Bytes(in.mt, in.data)
+		var sb bytes.Buffer
+		mm.Minify(in.mt, &sb, bytes.NewReader(in.data))
+		req := httptest.NewRequest("GET", "http://example.com/x", nil)
+		rw := &headerSnapshotRW{hdr: http.Header{}}
+		mw := mm.ResponseWriter(rw, req)
+		mw.Header().Set("Content-Type", in.mt)
+		mw.Write(in.data)
+		mw.Close()
+		cfg := "pattern, call, literal registration, call: " + in.name
+		if !bytes.HasPrefix(first, []byte("pattern:")) || !bytes.HasPrefix(second, []byte("literal:")) || !bytes.Equal(second, sb.Bytes()) || !bytes.Equal(second, rw.buf.Bytes()) {
+			run.Violation(core.Key(cfg, in.data), fmt.Sprintf("%s: Bytes before %q, Bytes after %q, Minify after %q, ResponseWriter after %q", cfg, core.Trunc(string(first), 30), core.Trunc(string(second), 30), core.Trunc(sb.String(), 30), core.Trunc(rw.buf.String(), 30)), map[string]interface{}{"case": cfg})
+		} else {
+			run.NonTrivial([]byte(cfg))
 		}
 	}
 	// 4c. results stay what they were: slices and strings returned earlier are compared again after later calls
